@@ -44,11 +44,22 @@ def allowance_sites(model: Model, fshort: str, share, eps_param="eps", rule="E4-
                           "threshold expression is not a product/quotient/power form the normaliser models"))
             continue
         bad = None
+        opaque = None
+        known = {"EPS:" + eps_param} | set(share) | {"d", "(d - 1)", "dfin", "(dfin - 1)"}
         for m in ms:
+            unk = [a for a in m.exps if a not in known and not a.startswith("NORM(")]
+            if unk:
+                opaque = (m, unk)
+                continue
             ok, why = al.check_relative_allowance(m, "EPS:" + eps_param, spec, share)
             if not ok:
                 bad = (m, why)
                 break
+        if opaque and not bad:
+            obs.append(Ob(rule, k, ERROR, model.where(f, call), norm(call.args[1])[:120],
+                          f"threshold normalises to [{opaque[0].show()}], which contains quantities the allowance analysis does not model "
+                          f"({opaque[1]}): neither confirmed nor refuted"))
+            continue
         if bad:
             obs.append(Ob(rule, k, VIOLATED, model.where(f, call), norm(call.args[1])[:120],
                           f"truncation threshold normalises to [{bad[0].show()}]: {bad[1]}. The per-bond allowance must be "
